@@ -91,6 +91,9 @@ def concrete_str(v):
     n = v['len']
     if n == 0:
         return ''
+    if v['u'] >= 2:
+        # sentinel text: occurs only below a redactor (C13)
+        return (('se%dcret%d' % (v['u'], v['u'])) + 'x' * n)[:n]
     ch = 'é' if v['u'] == 1 else 'a'
     s = ch * n
     if not v['ok']:
@@ -109,11 +112,12 @@ def referenced_namespaces(obj, schema, acc):
             referenced_namespaces(v, schema, acc)
 
 
-def render_schema(schema, roots=(), route_ns=None, annotations=None):
+def render_schema(schema, roots=(), route_ns=None, annotations=None, patched=None):
     """schema: name -> def.  Returns list of (filename, text), one file per namespace.
 
     roots: type expressions; each becomes `route probe<i>(T, Void, Void)` in route_ns so that
     its validator is built by the generated code (generate_validator_constructor)."""
+    patched = patched or {}
     nss = []
     for d in schema.values():
         if d['ns'] not in nss:
@@ -170,6 +174,8 @@ def render_schema(schema, roots=(), route_ns=None, annotations=None):
                         sns = schema[s['sub']]['ns']
                         body.append('        %s %s' % (s['tag'], s['sub'] if sns == ns else sns + '.' + s['sub']))
                 for f in d['fields']:
+                    if f['n'] in patched.get(n, ()):
+                        continue
                     line = '    %s %s' % (f['n'], render_type(f['t'], ns, schema))
                     if f['d']['k'] != 'nodefault':
                         line += ' = ' + render_literal(f['d'])
@@ -195,6 +201,8 @@ def render_schema(schema, roots=(), route_ns=None, annotations=None):
                         body.append('    %s %s' % (t['n'], render_type(t['t'], ns, schema)))
                     if t.get('omit'):
                         body.append('        @Omit_%s' % t['omit'])
+                    if t.get('red'):
+                        body.append('        @%s' % ann_name(t['red']))
                 if not body:
                     body.append('    "no tags"')
                 lines += body
@@ -204,6 +212,28 @@ def render_schema(schema, roots=(), route_ns=None, annotations=None):
                 lines.append('route probe%d(%s, Void, Void)' % (i, render_type(r, ns, schema)))
                 lines.append('')
         out.append(('%s.stone' % ns, '\n'.join(lines) + '\n'))
+        # patched-in fields live in a second file of the namespace
+        plines = []
+        for n, names in patched.items():
+            d = schema[n]
+            if d['ns'] != ns or not names:
+                continue
+            plines.append('patch struct %s' % n)
+            for f in d['fields']:
+                if f['n'] not in names:
+                    continue
+                plines.append('    %s %s' % (f['n'], render_type(f['t'], ns, schema)))
+                if f.get('omit'):
+                    plines.append('        @Omit_%s' % f['omit'])
+                if f.get('red'):
+                    plines.append('        @%s' % ann_name(f['red']))
+            plines.append('')
+        if plines:
+            hdr = ['namespace %s' % ns, ''] + ['import %s' % r for r in sorted(refs - {ns})] + ['']
+            hdr += ['annotation %s = %s' % (a, ann_needed[a]) for a in sorted(ann_needed)]
+            # annotations are namespace-wide: defined once, in the first file
+            hdr = ['namespace %s' % ns, ''] + ['import %s' % r for r in sorted(refs - {ns})] + ['']
+            out.append(('%s_patch.stone' % ns, '\n'.join(hdr + plines) + '\n'))
     return out
 
 
